@@ -140,6 +140,13 @@ def main(tier: str, seed: int) -> int:
             dict(kinds=['linear', 'conv', 'act'], frozen=['none'],
                  max_leaves=3, max_depth=2, patterns=trees.PATTERNS[:3],
                  max_pat=1, share=False, segs=('a', 'ab', 'a_b')),
+            # names wrappers and containers produce ("module", "0"), a name
+            # that contains another one ("submodule"), patterns that refer
+            # to them
+            dict(kinds=['linear', 'conv', 'act'], frozen=['none'],
+                 max_leaves=3, max_depth=2, patterns=trees.WRAP_PATTERNS,
+                 max_pat=1, share=False,
+                 segs=('module', 'submodule', '0', 'sub')),
         ]
     else:
         scopes = [
@@ -168,6 +175,11 @@ def main(tier: str, seed: int) -> int:
                  frozen=['none', 'all'], max_leaves=4, max_depth=2,
                  patterns=trees.PATTERNS[:4], max_pat=1, share=True,
                  segs=('a', 'ab', 'a_b', 'b'), simulate=6000),
+            dict(kinds=['linear', 'conv', 'linsub', 'act', 'empty'],
+                 frozen=['none', 'all'], max_leaves=4, max_depth=3,
+                 patterns=trees.WRAP_PATTERNS, max_pat=2, share=True,
+                 segs=('module', 'submodule', '0', 'sub', 'modules'),
+                 simulate=6000),
         ]
     gscope = dict(kinds=['colpar', 'rowpar', 'linear', 'act', 'empty'],
                   frozen=['none', 'part', 'all'], max_leaves=2, max_depth=2,
